@@ -508,7 +508,10 @@ func (g *pg) stmt(depth int) []lang.Stmt {
 		case 1:
 			return []lang.Stmt{lang.ExprStmt{X: lang.Binary{Op: "+", L: g.intExpr(0), R: lang.Lit{V: lang.Str("s")}}}}
 		case 2:
-			return []lang.Stmt{lang.ExprStmt{X: lang.Call{Fn: "panic", Args: []lang.Expr{lang.Lit{V: lang.Str("boom")}}}}}
+			// panic() with whatever a script may hand it: a message, nothing, a
+			// number, null (an unset name), a container
+			pargs := [][]lang.Expr{{lang.Lit{V: lang.Str("boom")}}, {}, {lang.Lit{V: lang.Int(3)}}, {lang.Name{N: "Unset"}}, {lang.ArrayLit{}}, {lang.Lit{V: lang.Str("a")}, lang.Lit{V: lang.Int(1)}}, {lang.Lit{V: lang.Bool(false)}}}
+			return []lang.Stmt{lang.ExprStmt{X: lang.Call{Fn: "panic", Args: pargs[g.pick("panicarg", len(pargs))]}}}
 		}
 		return []lang.Stmt{lang.ExprStmt{X: lang.Call{Fn: "nosuchfn", Args: nil}}}
 	}
